@@ -8,8 +8,8 @@ use std::time::Duration;
 pub fn def() -> CheckDef {
     CheckDef {
         id: "C02",
-        functions: &["strict::OpenHypergraph::tensor (Monoidal::tensor, |)", "strict::Hypergraph::coproduct (+)", "IndexedCoproduct::tensor", "FiniteFunction::tensor", "SemifiniteFunction::coproduct", "strict::OpenHypergraph::{source,target,identity}", "Monoidal::unit"],
-        bounds_quick: "pairs: per operand W<=2, X<=1, S,T<=2, interfaces<=2 (whole box); triples: W<=1, X<=1, S,T<=1, interfaces<=1; unit laws on the pair box",
+        functions: &["strict::OpenHypergraph::tensor (Monoidal::tensor, |)", "strict::Hypergraph::coproduct (+)", "IndexedCoproduct::tensor", "FiniteFunction::tensor", "SemifiniteFunction::coproduct", "strict::OpenHypergraph::{source,target,identity}", "Monoidal::unit", "lax::OpenHypergraph::{tensor,empty}", "lax::Hypergraph::coproduct", "lax::mut_category::{tensor_assign,append,coproduct_assign}"],
+        bounds_quick: "lax half: pairs of lax diagrams with <=2 nodes, <=1 hyperedge, <=1 pending pair each (<=6 node references per pair, all wirings enumerated, labels symbolic), triples of <=1-node diagrams; strict half: pairs: per operand W<=2, X<=1, S,T<=2, interfaces<=2 (whole box); triples: W<=1, X<=1, S,T<=1, interfaces<=1; unit laws on the pair box",
         bounds_thorough: "pairs W<=3, X<=2, S,T<=3, interfaces<=2; triples W<=2, X<=1",
         jobs,
         budget_s: (120, 2400),
@@ -135,7 +135,15 @@ pub fn jobs(tier: Tier, seed: u64) -> Vec<Job> {
     let (mut a, mut b): (Vec<Job>, Vec<Job>) = out.into_iter().partition(|j| !j.name.starts_with("assoc"));
     a.reverse();
     b.reverse();
-    while !a.is_empty() || !b.is_empty() {
+    let mut lax = super::lax::c02_lax_jobs(tier, seed);
+    lax.reverse();
+    while !a.is_empty() || !b.is_empty() || !lax.is_empty() {
+        // lax half: the same law for lax diagrams including pending unifications
+        for _ in 0..2 {
+            if let Some(j) = lax.pop() {
+                inter.push(j);
+            }
+        }
         for _ in 0..4 {
             if let Some(j) = a.pop() {
                 inter.push(j);
